@@ -497,6 +497,43 @@ static int ref_color(const char *t, uint8_t c[4])
 	return 1;
 }
 
+/* ------------------------------------------------------ read back by name */
+/*
+ * Aliases the setters accept but the getters do not resolve to the same
+ * property (documented in notes/C20.md as finding): not read back.
+ */
+static int readable_spelling(int k, const char *name)
+{
+	static const char *axis_no[] = { "labelpos", "label position", "titlepos", "title position", 0 };
+	static const char *graph_no[] = { "fg", "bg", "type", 0 };
+	const char **no = k == KAxis ? axis_no : k == KGraph ? graph_no : 0;
+	for (; no && *no; no++) if (!strcasecmp(*no, name)) return 0;
+	return 1;
+}
+/* get(name) has to answer the property `want` (from a snapshot taken by index) */
+static void check_read(int k, const ostore *o, const char *name, const pval *want, int sub, const char *ctx)
+{
+	MPT_STRUCT(property) pr;
+	int ret;
+	memset(&pr, 0, sizeof(pr));
+	pr.name = name;
+	ret = o_get(k, o, &pr);
+	VF_CHECK(ret >= 0, "model:get:accepted-name-unreadable", "%s: mpt_%s_get(\"%s\") returns %d, the same spelling is accepted by the setter for '%s'", ctx, kname[k], name, ret, want->name);
+	if (sub) {
+		/* text x / y: one coordinate of pos */
+		VF_CHECK(pr.val._type == 'f' && pr.val._addr && !memcmp(pr.val._addr, want->bytes + (sub == 2 ? 4 : 0), 4), "model:get:wrong-property", "%s: mpt_%s_get(\"%s\") does not answer the %s coordinate of 'pos'", ctx, kname[k], name, sub == 2 ? "y" : "x");
+	} else {
+		VF_CHECK(pr.name && !strcmp(pr.name, want->name), "model:get:wrong-property", "%s: mpt_%s_get(\"%s\") answers '%s', the setter changes '%s'", ctx, kname[k], name, pr.name ? pr.name : "(null)", want->name);
+		if (want->isstr) {
+			const char *str = pr.val._type == 's' && pr.val._addr ? *(const char * const *) pr.val._addr : 0;
+			VF_CHECK(pr.val._type == 's' && ((!str && !want->str) || (str && want->str && !strcmp(str, want->str)) || (!str && want->str && !*want->str) || (str && !*str && !want->str)), "model:get:wrong-property", "%s: mpt_%s_get(\"%s\") reads another string than the listing by index (%s)", ctx, kname[k], name, pval_str(want));
+		} else {
+			VF_CHECK((int) pr.val._type == want->type && pr.val._addr && !memcmp(pr.val._addr, want->bytes, want->len), "model:get:wrong-property", "%s: mpt_%s_get(\"%s\") reads another value than the listing by index (%s)", ctx, kname[k], name, pval_str(want));
+		}
+	}
+	vf_count("monitor:read-by-spelling", 1);
+}
+
 /* ------------------------------------------------------------------ oracle */
 static const char *clipnames[8] = { "", "x", "y", "xy", "z", "xz", "yz", "xyz" };
 
@@ -550,7 +587,13 @@ static int expect_from_delivery(const hconv *h, const pval *before, const pval *
 		memcpy(want->bytes + (sub == 2 ? 4 : 0), h->dbytes, 4);
 		return 1;
 	}
-	if (h->dtype == 'd' && cur->type == 'f') { double d; float f; memcpy(&d, h->dbytes, 8); f = (float) d; memcpy(want->bytes, &f, 4); return 1; }
+	if (h->dtype == 'd' && cur->type == 'f') {
+		double d; float f;
+		memcpy(&d, h->dbytes, 8);
+		/* precision of the narrower type is not a defect, a finite value turned into infinity is */
+		if (isfinite(d) && fabs(d) > FLT_MAX) { volatile float g = (float) (d < 0 ? -INFINITY : INFINITY); f = g; memcpy(want->bytes, &f, 4); *why = "finite value beyond the float range accepted"; return -1; }
+		f = (float) d; memcpy(want->bytes, &f, 4); return 1;
+	}
 	if (h->dtype == 'i' && cur->type == 'y') { int32_t v; memcpy(&v, h->dbytes, 4); if (v < 0 || v > 255) { *why = "out of range accepted"; want->bytes[0] = (uint8_t) v; return -1; } want->bytes[0] = (uint8_t) v; return 1; }
 	if ((h->dtype == 'c' || h->dtype == 'y') && (cur->type == 'c' || cur->type == 'y')) { want->bytes[0] = h->dbytes[0]; return 1; }
 	return 0;
@@ -650,7 +693,7 @@ static int do_set(int k, ostore *o, const pname *pn, hconv *h, const char *spell
 	}
 	else {
 		int e = expect_from_delivery(h, &before.p[t], &after.p[t], pn->sub, &want, &why);
-		if (e < 0) vf_fail("model:set:accepted-out-of-range", "%s: %s: stored %s", ctx, why, pval_str(&after.p[t]));
+		if (e < 0 && !vf_known("model:set:accepted-out-of-range")) vf_fail("model:set:accepted-out-of-range", "%s: %s: stored %s", ctx, why, pval_str(&after.p[t]));
 		if (e > 0) {
 			if (!pval_eq(&after.p[t], &want)) vf_fail("model:set:readback", "%s: returned %d, '%s' reads %s, delivered value is %s", ctx, r, pn->get, pval_str(&after.p[t]), pval_str(&want));
 			if (want.isstr && after.p[t].straddr && h->dstr) VF_CHECK(after.p[t].straddr != h->dstr, "model:set:string-shared", "%s: object keeps the caller's string pointer", ctx);
@@ -658,6 +701,9 @@ static int do_set(int k, ostore *o, const pname *pn, hconv *h, const char *spell
 		}
 		else vf_count(*why ? "set:adopted-lenient-colour" : "set:adopted-string-coded", 1);
 	}
+	/* read back through the spelling used to set and through the listed name */
+	if (readable_spelling(k, spelled) && !(pn->sub && strcmp(spelled, pn->set))) check_read(k, o, spelled, &after.p[t], pn->sub, ctx);
+	check_read(k, o, pn->get, &after.p[t], 0, ctx);
 	snap_free(&before); snap_free(&after);
 	return r;
 }
@@ -728,7 +774,11 @@ static void do_set_string(int k, ostore *o, const pname *pn, const char *text, v
 			v = strtod(text, &end);
 			if (end != text && !*end && isfinite(v)) {
 				if (a->type == 'd') { double g; memcpy(&g, a->bytes, 8); VF_CHECK(g == v, "model:set_string:readback", "%s: '%s' reads %s", ctx, pn->get, pval_str(a)); }
-				else { float g; memcpy(&g, a->bytes, 4); VF_CHECK(g == (float) v, "model:set_string:readback", "%s: '%s' reads %s", ctx, pn->get, pval_str(a)); }
+				else {
+					float g; memcpy(&g, a->bytes, 4);
+					if (fabs(v) > FLT_MAX) { if (!vf_known("model:set_string:accepted-out-of-range")) vf_fail("model:set_string:accepted-out-of-range", "%s: finite numeral beyond the float range accepted, '%s' reads %s", ctx, pn->get, pval_str(a)); }
+					else VF_CHECK(g == (float) v, "model:set_string:readback", "%s: '%s' reads %s", ctx, pn->get, pval_str(a));
+				}
 				vf_count("monitor:string-readbacks-compared", 1);
 			}
 		}
@@ -824,6 +874,20 @@ static void do_get_names(int k, const ostore *o, vf_rng *r)
 		if (!s.p[i].isstr) VF_CHECK(pr.val._type == s.p[i].type && pr.val._addr && !memcmp(pr.val._addr, s.p[i].bytes, s.p[i].len), "model:get:wrong-property", "mpt_%s_get(\"%s\"): value differs from the one listed by index", kname[k], s.p[i].name);
 		vf_count("monitor:get-by-name", 1);
 	}
+	/* partial matching kinds: every prefix of a listed name from the significant length on */
+	{
+		int mlen = k == KAxis ? 3 : k == KWorld ? 3 : k == KGraph ? 2 : 0;
+		for (int i = 0; mlen && i < s.n; i++) {
+			char pre[40];
+			size_t l = strlen(s.p[i].name);
+			for (size_t n = (size_t) mlen; n <= l && n < sizeof(pre); n++) {
+				memcpy(pre, s.p[i].name, n); pre[n] = 0;
+				if (vf_chance(r, 1, 3)) pre[0] = (char) toupper((unsigned char) pre[0]);
+				check_read(k, o, pre, &s.p[i], 0, "unique prefix");
+				vf_count("monitor:get-by-prefix", 1);
+			}
+		}
+	}
 	/* names that share no prefix with any property are unknown */
 	{
 		static const char *unknown[] = { "qqq", "zzzz", "0", "#", "?unknown", "Qx" };
@@ -876,7 +940,7 @@ static void case_grid(uint64_t idx, vf_rng *r)
 	vf_sample("grid: %s property '%s' (reads as '%s') := %s, then reset, then an unknown name", kname[k], pn->set, pn->get, hconv_str(&h));
 }
 /* PRNG sequences */
-static const char *numtexts[] = { "0", "1", "5", "7", "10", "255", "256", "300", "-1", "70000", "0.5", "0.25", "1.5", "2.5e3", "1e-3", "abc", "", "x", "12abc", " 3", "1 2", "0.25 0.75" };
+static const char *numtexts[] = { "1e39", "-3.5e38", "1e300", "3.4e38", "0", "1", "5", "7", "10", "255", "256", "300", "-1", "70000", "0.5", "0.25", "1.5", "2.5e3", "1e-3", "abc", "", "x", "12abc", " 3", "1 2", "0.25 0.75" };
 static void case_sequence(vf_rng *r)
 {
 	int k = (int) vf_below(r, NKinds), steps = vf_range(r, 5, 40);
